@@ -519,7 +519,10 @@ def replay(data):
         arr = np.array(r["values"], dtype=r.get("dtype", "float64")).reshape(tuple(r["shape"]) + tr)
         out = call(lambda: d.Resize(shape=tuple(r["target"]), interpolation="inter_area", **{"resize conservative": True})(arr.copy()))
         print(f"sum before {arr.astype(float).sum(axis=(0, 1)).tolist()} after {out if isinstance(out, Raised) else out.astype(float).sum(axis=(0, 1)).tolist()} (required: equal within 1e-6 relative)")
-        return 0
+        if isinstance(out, Raised):
+            return 1
+        a, b = arr.astype(float).sum(axis=(0, 1)), out.astype(float).sum(axis=(0, 1))
+        return 0 if np.allclose(a, b, rtol=RTOL, atol=RTOL * max(1.0, float(np.abs(arr.astype(float)).sum()))) else 1
     if op == "refine":
         shape = tuple(r["shape"])
         arr = np.array(r["values"], dtype=float).reshape(shape + tr)
@@ -527,7 +530,7 @@ def replay(data):
         out = call(d.uniform_refinement, img, r["level"])
         i0 = integ(d, img)
         print(f"shape {shape} levels {r['level']}: integral before {np.asarray(i0).tolist()} after {out if isinstance(out, Raised) else np.asarray(integ(d, out)).tolist()} (required: equal)")
-        return 0
+        return 1 if isinstance(out, Raised) or isinstance(integ(d, out), Raised) or not np.array_equal(integ(d, out), i0) else 0
     if op in ("reduce", "extrude"):
         shape = tuple(r["shape"])
         arr = np.array(r["values"], dtype=float).reshape(shape + tr)
@@ -540,7 +543,14 @@ def replay(data):
         else:
             lo1, hi1 = box(out)
             print(f"output box {lo1.tolist()}..{hi1.tolist()} dimensions {out.dimensions} integral in {np.asarray(integ(d, img)).tolist()} out {np.asarray(integ(d, out)).tolist()}")
-        return 0
+            if op == "extrude":
+                return 0 if np.allclose(lo1[:2], lo0, atol=1e-12) and np.allclose(hi1[:2], hi0, atol=1e-12) else 1
+            cart = "xyz".find(r["axis"]) if isinstance(r["axis"], str) else None
+            if cart is not None:
+                kept = [c for c in range(len(shape)) if c != cart]
+                return 0 if np.allclose(lo1, lo0[kept], atol=1e-12) and np.allclose(hi1, hi0[kept], atol=1e-12) else 1
+            return 0
+        return 1
     import json
 
     print(json.dumps(r)[:2000])
